@@ -2,6 +2,7 @@
 # regenerates the "which check catches which seeded change" table of DESIGN.md (section 0.8) from seeded/*/detection.txt
 import os, json, re
 rows=[]
+known=set(re.findall(r'obligation=(\S+)', open('/verif/known_findings.txt').read()))
 for d in sorted(os.listdir('/verif/seeded')):
     p='/verif/seeded/'+d
     if not os.path.exists(p+'/meta.json'): continue
@@ -10,7 +11,7 @@ for d in sorted(os.listdir('/verif/seeded')):
     nv=re.search(r'violations reported: (\d+)',det)
     nv=int(nv.group(1)) if nv else -1
     obl=[l for l in det.split('\n') if l.startswith('FAIL') or l.startswith('OUT-OF-REACH')]
-    obl=[l for l in obl if 'Aroon.Compute/guarantees' not in l and 'guarantees/len' not in l and 'guarantees/documented' not in l and 'one-value-per-date' not in l and 'CciStrategy' not in l or d.startswith('C06')]
+    obl=[l for l in obl if l.split()[1].rstrip(':') not in known]
     first=obl[0].split()[1] if obl else ''
     extra=''
     if os.path.exists(p+'/other_checks.txt'): extra=open(p+'/other_checks.txt').read().strip()
